@@ -24,6 +24,7 @@ func (queue *Queue[T]) FromJSON(data []byte) error {
 	var values []T
 	err := json.Unmarshal(data, &values)
 	if err == nil {
+		queue.Clear()
 		for _, value := range values {
 			queue.Enqueue(value)
 		}
